@@ -189,10 +189,11 @@ def model_re_sub_delete(pat, s):
     out = []
     for q in s.p:
         if isinstance(q, Opt):
-            # the optional slot holds a member of cls_ranges; it is deleted iff its whole class matches
-            inside = ctx.must(z3.Implies(q.present, char_pred(q.ch, items, pat.flags)))
-            if not inside:
-                raise Unmodelled("optional slot not covered by the deleted class")
+            # the optional slot holds an arbitrary member of cls_ranges; it vanishes iff that whole class is deleted
+            if all(pat.fullmatch(chr(c)) for lo, hi in q.cls_ranges for c in range(lo, hi + 1)):
+                continue
+            if ctx.choose(q.present) and not ctx.choose(char_pred(q.ch, items, pat.flags)):
+                out.append(q.ch)  # a present slot character the pattern does not delete stays in the text
             continue
         if isinstance(q, Dec):
             out.append(q)  # decimal digits are never whitespace; checked for the classes we accept:
